@@ -153,6 +153,25 @@ func vfC19(w *vfWorld) {
 	if cb != nil && cb.Status == 302 {
 		sessCookie = vfCookieHeader(b.CookiesFor(cfg.Scheme, vfAppHost, "/x"))
 	}
+	// a browser that already holds a valid session signs in again through the htpasswd form, signs out, signs in again:
+	// session sources replacing each other in one jar (the form login saves a session that no provider stamped)
+	if sessCookie != "" {
+		rb := w.NewBrowser("Brelogin", "192.0.2.11:1")
+		if _, cb2 := rb.Login(rep, pp+"/start?rd=%2Fapp", "bob"); cb2 != nil && cb2.Status == 302 {
+			form := func(user, pw string) {
+				body := url.Values{"username": {user}, "password": {pw}, "rd": {"/app"}}.Encode()
+				rb.Do(rep, &vfReq{Method: "POST", Target: pp + "/sign_in", Body: []byte(body), Headers: [][2]string{{"Content-Type", "application/x-www-form-urlencoded"}}})
+			}
+			form("hank", "pw-hank")
+			rb.GET(rep, "/app/as-hank")
+			form("hank", "pw-hank")
+			form("hank", "wrong")
+			rb.GET(rep, pp+"/sign_out")
+			form("hank", "pw-hank")
+			rb.Login(rep, pp+"/start?rd=%2Fapp", "alice")
+			rb.GET(rep, "/app/as-alice")
+		}
+	}
 	csrfB := w.NewBrowser("B2", "192.0.2.8:1")
 	lg, _ := csrfB.StartLogin(rep, pp+"/start?rd=%2Fapp", "bob")
 	bearer := idp.MintBearer("alice", func(c map[string]interface{}, so *vfSignOpt) { c["azp"] = vfClientID; c["roles"] = []string{"dev"} })
